@@ -131,9 +131,11 @@ def gen_cases(seed, tier):
             # strong dependence: the size of the first factor grows from 0.3 to 1.3 units over the range of s
             lo, hi = float(rng.uniform(-1, 0)), float(rng.uniform(0.5, 2))
             size = float(rng.uniform(0.5, 1.5))
+            if i % 4 == 1:
+                size *= 0.01          # the same product at a small length scale (slice volumes of order 1e-4), sampled with big n
             grow = {"a": [0.3 * size - size * lo / (hi - lo)], "terms": [{"var": "s", "col": 0, "kind": "lin", "coef": [size / (hi - lo)]}]}
             c = rng.uniform(-2, 2, 2)
-            if rng.random() < 0.5:
+            if rng.random() < 0.5 or i % 4 == 1:
                 a = {"prim": "circle", "var": "x", "center": [float(c[0]), float(c[1])], "radius": grow}
             else:
                 a = {"prim": "interval", "var": "x", "lo": float(c[0]),
@@ -159,6 +161,23 @@ def gen_cases(seed, tier):
         y0_, y1_ = ra["origin"][1], ra["c2"][1]
         add("comp", dom, target="boundary", mode="dens" if i % 2 == 0 else "big", nsmall=1,
             equiv={"prim": "parallelogram", "var": "x", "origin": [min(xs), y0_], "c1": [max(xs), y0_], "c2": [min(xs), y1_]})
+    for i in range(3 if quick else 40):
+        # union / cut of two overlapping discs whose exact boundary length (two arcs) is set with set_volume() on the
+        # boundary, as the library's warning recommends: random sampling by n stays uniform on the two arcs
+        ra, rb = float(rng.uniform(0.7, 1.3)), float(rng.uniform(0.4, 0.9))
+        dd = float(rng.uniform(max(ra, rb) * 1.05, (ra + rb) * 0.85))
+        c = rng.uniform(-2, 2, 2)
+        A = {"prim": "circle", "var": "x", "center": [float(c[0]), float(c[1])], "radius": ra}
+        B = {"prim": "circle", "var": "x", "center": [float(c[0] + dd), float(c[1])], "radius": rb}
+        al_a = math.acos((dd * dd + ra * ra - rb * rb) / (2 * dd * ra))
+        al_b = math.acos((dd * dd + rb * rb - ra * ra) / (2 * dd * rb))
+        if i % 2 == 0:
+            spec, blen = {"op": "union", "a": A, "b": B}, ra * (2 * math.pi - 2 * al_a) + rb * (2 * math.pi - 2 * al_b)
+        else:
+            spec, blen = {"op": "cut", "a": A, "b": B}, ra * (2 * math.pi - 2 * al_a) + rb * (2 * al_b)
+        dom = {"spec": spec, "rows": {}, "k": 0, "info": {"kind": "bool", "dim": 2, "dep": False, "relations": ["%s:overlap" % spec["op"]],
+                                                         "desc": geo.ref(spec).desc() + "~setvol"}}
+        add("comp", dom, target="boundary", mode="big", nsmall=1, set_bvol=blen)
     for i in range(6 if quick else 60):
         # disjoint union whose mixing ratio |A| / (|A| + |B|) differs strongly between the parameter rows
         c = rng.uniform(-2, 2, 2)
@@ -256,12 +275,14 @@ def gen_cases(seed, tier):
 # drawing samples from the library
 # ---------------------------------------------------------------------------------------------
 
-def draw(D, node, target, mode, N, nsmall, Pp, env, k, seed):
+def draw(D, node, target, mode, N, nsmall, Pp, env, k, seed, set_bvol=None):
     """-> list (one entry per parameter row) of float64 arrays of the domain coordinates"""
     import torch
     torch.manual_seed(seed)
     kk = max(k, 1)
     Dt = D if target == "interior" else D.boundary
+    if set_bvol:
+        Dt.set_volume(float(set_bvol))
     names = [n for n, _ in node.space()]
     out = [[] for _ in range(kk)]
 
@@ -510,7 +531,7 @@ def spec_traits(spec, node, env0, rng):
 def _uniform_test(case, D, node, Pp, env, k, N, seed, rng):
     """-> list of (row, p, description) for the rows tested"""
     target, mode = case["target"], case["mode"]
-    Xs = draw(D, node, target, mode, N, case.get("nsmall", 1), Pp, env, k, seed)
+    Xs = draw(D, node, target, mode, N, case.get("nsmall", 1), Pp, env, k, seed, set_bvol=case.get("set_bvol"))
     bnode = geo.ref({"op": "boundary", "d": case["spec"]})
     out = []
     for i, X in enumerate(Xs[:3]):
